@@ -64,6 +64,10 @@ SPAN = {'COMMENT_ML': r"(?P<END_COMMENT>(\*[^/]|[^*])*)\*/"}
 # look-ahead, which may match nothing at all: right behind the opener, or at the start of a later line)
 TOK_LA = TOK.replace("(?P<WORD>", "(?P<COMMENT_END>\\*/)|(?P<WORD>")
 SPAN_LA = {'COMMENT_ML': r"(?P<END_COMMENT>(\*[^/]|[^*])*?)(?=\*/)"}
+# the tokenizer pattern of a case-insensitive language starts with an inline flag; the comments of that language are
+# closed by 'x*/' - a small x (the span regexp is the user's own regular expression: it has no such flag)
+TOK_CI = "(?i)" + TOK
+SPAN_CI = {'COMMENT_ML': r"(?P<END_COMMENT>((?!x\*/).)*)x\*/"}
 SYN = {'COMMENT_EOL': 'COMMENT', 'COMMENT_ML': 'COMMENT', 'SEMI': ';', 'LP': '(', 'RP': ')'}
 SPAN_TWO['COMMENT_ML'] = SPAN['COMMENT_ML']
 SYN_TWO = dict(SYN, COMMENT_P='COMMENT')
@@ -121,6 +125,8 @@ CONFIGS = [
          kept=set(), mls=[("/*", "*/"), ("(*", "*)")]),
     dict(name="closing-mark-is-a-token", tok=TOK_LA, span=SPAN_LA, syn=SYN_LA, skip=None, prods=STMT_PRODS, stmt=True,
          kept=set(), closer_is_token=True),
+    dict(name="inline-flag-in-the-tokenizer-pattern", tok=TOK_CI, span=SPAN_CI, syn=SYN, skip=None, prods=STMT_PRODS,
+         stmt=True, kept=set(), ml=("/*", "x*/"), ml_bodies=True),
     dict(name="only-blanks-are-space", tok=TOK_NARROW, span=SPAN, syn=SYN, skip=None, prods=STMT_PRODS,
          stmt=True, kept=set(), narrow=True),
 ]
@@ -141,10 +147,13 @@ def get_parser(cfg_id, smart=True):
 # ---------------------------------------------------------------- text generation
 WORDS = ["ab", "x", "foo_bar", "iff", "z"]
 NUMS = ["0", "12", "007"]
-STRS = ['""', '"s t"', '"é中 x"', '"// no"', '"/* no */"', '"a;b"']
+# (letters typed as base letter + combining mark, Hangul written in jamo: they are the characters they are)
+STRS = ['""', '"s t"', '"é中 x"', '"// no"', '"/* no */"', '"a;b"', '"e\u0301 x"', '"\u1112\u1161\u11ab"']
 BLANKS = [" ", "  ", "\t", " \t ", "    ", " \x0c", "\x0b", "\x0c", "\u00a0 ", " \u2003", "\x1f "]
-ML_BODIES = ["", " x ", " a\nb ", "\n\n q", " é\n  \n\t* z ", "\n", " 1\n 2\n 3 ", " ; \" "]
-EOL_BODIES = ["", " c", " x /* y", " é中;"]
+ML_BODIES = ["", " x ", " a\nb ", "\n\n q", " é\n  \n\t* z ", "\n", " 1\n 2\n 3 ", " ; \" ", " o\u0308\n u\u0308 "]
+EOL_BODIES = ["", " c", " x /* y", " é中;", " a\u030a"]
+# bodies for the comments that end with 'x*/' in a language whose tokenizer pattern carries the inline flag (?i)
+ML_BODIES_X = ML_BODIES + [" X*/ ", " aX*/\nX */ ", "X*/"]
 
 
 def gen_stmt(rng, depth=0):
@@ -228,7 +237,8 @@ def gen_pieces(rng, cfg):
                     out.append(("tok", "COMMENT", opener + rng.choice(ML_BODIES)))
                     out.append(("tok", "COMMENT", closer))
                     continue
-                out.append(("tok", "COMMENT", opener + rng.choice(ML_BODIES) + closer))
+                out.append(("tok", "COMMENT", opener + rng.choice(ML_BODIES_X if cfg.get("ml_bodies") else ML_BODIES)
+                            + closer))
             elif r < 0.95:
                 out.append(("tok", "COMMENT", "//" + rng.choice(EOL_BODIES)))
                 out.append(("nl", None, "\n"))
